@@ -117,6 +117,55 @@ Definition spec_grouped_nk (m : imethod) (keys : list key) (c : col) : col :=
   | _ => impute_grouped_spec m keys c
   end.
 
+(* ---- the same conventions with one switch per recorded deviation (true = deviation present, false = repaired):
+        the correspondence check accepts, inside a known-finding domain, any combination of present / repaired, so that
+        repairing one defect of /repo at a time never raises an alarm.  All switches true = the definitions above. ---- *)
+Record pdconv := { pd_tie : bool; pd_nofb : bool; pd_nk : bool; pd_tuple : bool }.
+Record paconv := { pa_modenull : bool; pa_trunc : bool; pa_fillidx : bool; pa_nk : bool; pa_crash : bool }.
+
+Definition pd_mode (tie : bool) (l : list Q) : option Q := if tie then mode_smallest l else mode_l l.
+Definition pd_ungrouped_cv (cv : pdconv) (m : imethod) (c : col) : col :=
+  match m with IMode => fill_with (pd_mode (pd_tie cv) (vals c)) c | _ => impute_spec m c end.
+Definition pd_grouped_cv (cv : pdconv) (m : imethod) (keys : list key) (c : col) : col :=
+  let nk := pd_nk cv in
+  match m with
+  | IMean => fill_stat_gen nk mean_l (mean_l (vals c)) keys c
+  | IMedian => fill_stat_gen nk median_l (median_l (vals c)) keys c
+  | IMode => fill_stat_gen nk (pd_mode (pd_tie cv)) (if pd_nofb cv then None else pd_mode (pd_tie cv) (vals c)) keys c
+  | IConst k => fill_with (Some k) c
+  | IFfill | IBfill => drop_nullkey_rows nk keys (impute_grouped_spec m keys c)
+  end.
+
+Definition pa_mode (mn : bool) (g : col) : option Q := if mn then mode_pa g else mode_l (vals g).
+(* repaired positions; a row with a null key still has no group when nk: its cell is left as it is *)
+Definition keep_nullkey_rows (nk : bool) (keys : list key) (c s : col) : col :=
+  map (fun p => if nk && key_has_null (fst p) then fst (snd p) else snd (snd p)) (combine keys (combine c s)).
+Definition pa_fill_cv (cv : paconv) (fwd : bool) (keys : list key) (c : col) : col :=
+  if pa_fillidx cv then pa_grouped_fill fwd (pa_nk cv) keys c
+  else keep_nullkey_rows (pa_nk cv) keys c (impute_grouped_spec (if fwd then IFfill else IBfill) keys c).
+Definition pa_grouped_cv (cv : paconv) (m : imethod) (keys : list key) (c : col) : col :=
+  let nk := pa_nk cv in
+  match m with
+  | IMean => fill_stat_gen nk mean_l (mean_l (vals c)) keys c
+  | IMedian => fill_stat_gen nk median_l (median_l (vals c)) keys c
+  | IMode => map (fun p => match snd p with
+                           | Some _ => snd p
+                           | None => match pa_mode (pa_modenull cv) (members_nk nk keys (fst p) c) with
+                                     | Some v => Some v
+                                     | None => pa_mode (pa_modenull cv) c
+                                     end
+                           end) (combine keys c)
+  | IConst k => fill_with (Some k) c
+  | IFfill => pa_fill_cv cv true keys c
+  | IBfill => pa_fill_cv cv false keys c
+  end.
+Definition pa_ungrouped_cv (cv : paconv) (is_int : bool) (m : imethod) (c : col) : col :=
+  match m with
+  | IMode => fill_with (pa_mode (pa_modenull cv) c) c
+  | IMean | IMedian | IConst _ => if is_int && pa_trunc cv then impute_pa_int m c else impute_spec m c
+  | _ => impute_spec m c
+  end.
+
 (* ---- time windows ---- *)
 Definition win_agg_with (agg : aggop -> col -> option Q) (op : wop) (w : col) : option Q :=
   match op with WAgg a => agg a w | WFirst => hd None w | WLast => last w None end.
